@@ -12,6 +12,7 @@ import VotelibProofs.Lemmas.HAScale
 import VotelibProofs.Lemmas.ScaleThreshold
 import VotelibProofs.Lemmas.ScaleQuota
 import VotelibProofs.Lemmas.ScaleConvert
+import VotelibProofs.Lemmas.ScaleRanked
 import VotelibModel.ScaleFamilies
 import VotelibModel.Gen.Quota
 import Mathlib.Tactic.Ring
@@ -137,6 +138,59 @@ theorem approvalRule_scale (split : Bool) (k : Rat) (hk : 0 < k) (p : Convert.AP
   | error e => rfl
   | ok v => exact congrArg Except.ok (plurality_scale k hk v n)
 
+/-! ### the Condorcet family -/
+
+/-- a pairwise dictionary with every count multiplied by `k` -/
+abbrev scalePairwise (k : Rat) (v : Condorcet.Pairwise) : Condorcet.Pairwise := VL.Scale.scaleP k v
+/-- a ranked profile (C05 model) with every ballot weight multiplied by `k` -/
+abbrev scaleRanked (k : Rat) (p : Condorcet.Profile) : Condorcet.Profile := VL.Scale.scaleR k p
+
+/-- **Every entry of `condorcet.EVALUATORS`** (ranked pairs x3, Copeland first/second order, Schulze, Kemeny-Young,
+    minimax x3) on an arbitrary pairwise dictionary — sparse, with self-pairs, whatever: the outcome (including a
+    refusal) does not change when every count is multiplied by `k > 0`.  Win counts are vote-free; Schulze path
+    strengths, minimax counter-scores, Kemeny scores and ranked-pair strengths scale with `k`. -/
+theorem condorcetEv_scale (ev : C11F.CondorcetEv) (k : Rat) (hk : 0 < k) (v : Condorcet.Pairwise) (n : Nat) :
+    ev.eval (scalePairwise k v) n = ev.eval v n := by
+  cases ev with
+  | rankedPairs sc => exact VL.Scale.rankedPairs_scale k hk sc v n
+  | copeland so => exact congrArg Except.ok (VL.Scale.copeland_scale k hk so v n)
+  | schulze => exact congrArg Except.ok (VL.Scale.schulze_scale k hk v n)
+  | kemenyYoung => exact VL.Scale.kemenyYoung_scale k hk v n
+  | minimax sc => exact congrArg Except.ok (VL.Scale.minimax_scale k hk sc v n)
+
+/-- **CondorcetWinner, SmithSet, SchwartzSet** on an arbitrary pairwise dictionary. -/
+theorem condorcetSet_scale (s : C11F.CondorcetSet) (k : Rat) (hk : 0 < k) (v : Condorcet.Pairwise) :
+    s.eval (scalePairwise k v) = s.eval v := by
+  cases s with
+  | winner => exact VL.Scale.condorcetWinner_scale k hk v
+  | smith => exact VL.Scale.smithSchwartz_scale k hk v true
+  | schwartz => exact VL.Scale.smithSchwartz_scale k hk v false
+
+/-- **RankedToCondorcetVotes is linear** (C05 model, the default `unranked_at_bottom=True`). -/
+theorem rankedToCondorcetVotes_linear (k : Rat) (p : Condorcet.Profile) :
+    Condorcet.rankedToCondorcet (scaleRanked k p) = scalePairwise k (Condorcet.rankedToCondorcet p) :=
+  VL.Scale.rankedToCondorcetR_scale k p
+
+/-- **The Condorcet families of the quantifier**: `PreConverted(RankedToCondorcetVotes(), EVALUATORS[name])` on ranked
+    profiles (truncated ballots, shared ranks). -/
+theorem condorcetRule_scale (ev : C11F.CondorcetEv) (k : Rat) (hk : 0 < k) (p : Condorcet.Profile) (n : Nat) :
+    C11F.condorcetRule ev (scaleRanked k p) n = C11F.condorcetRule ev p n := by
+  unfold C11F.condorcetRule
+  rw [rankedToCondorcetVotes_linear, condorcetEv_scale ev k hk]
+
+theorem condorcetSetRule_scale (s : C11F.CondorcetSet) (k : Rat) (hk : 0 < k) (p : Condorcet.Profile) :
+    C11F.condorcetSetRule s (scaleRanked k p) = C11F.condorcetSetRule s p := by
+  unfold C11F.condorcetSetRule
+  rw [rankedToCondorcetVotes_linear, condorcetSet_scale s k hk]
+
+/-- **Benham** (Condorcet winner, else eliminate by first preferences): the whole elimination loop is simulated. -/
+theorem benham_scale (k : Rat) (hk : 0 < k) (p : Condorcet.Profile) :
+    Condorcet.benham (scaleRanked k p) = Condorcet.benham p := VL.Scale.benham_scale k hk p
+
+/-- **Tideman's alternative method** (Smith or Schwartz set, else eliminate). -/
+theorem tideman_scale (k : Rat) (hk : 0 < k) (smith : Bool) (p : Condorcet.Profile) :
+    Condorcet.tideman smith (scaleRanked k p) = Condorcet.tideman smith p := VL.Scale.tideman_scale k hk smith p
+
 /-- **Near ties are never ties**: totals that differ by one vote at any magnitude (`v` is any rational, so in particular
     `10^30`) are separated. -/
 theorem near_tie_separated (a b : Cand) (v : Rat) :
@@ -163,6 +217,16 @@ example : C11F.positionalRule (.borda 1) (scaleProfile ((10:Rat)^25 + 7)
   decide +kernel
 example : C11F.approvalRule true (scaleProfile ((10:Rat)^25 + 7) [([1, 2], 2), ([3], 1), ([2, 3], 1)]) 1
     = .ok [Slot.tie [2, 3]] := by decide +kernel
+example : C11F.condorcetRule (.minimax .margins) (scaleRanked ((10:Rat)^25 + 7)
+    [([.one 1, .one 2, .one 3], 2), ([.one 2, .one 3, .one 1], 2), ([.one 3, .one 1, .one 2], 1)]) 1 = .ok [Slot.tie [1, 2]] := by
+  decide +kernel
+example : C11F.condorcetRule .schulze (scaleRanked ((10:Rat)^25 + 7)
+    [([.one 1, .one 2, .one 3], 2), ([.one 2, .one 3, .one 1], 2), ([.one 3, .one 1, .one 2], 1)]) 3
+    = .ok [Slot.cand 2, Slot.cand 1, Slot.cand 3] := by
+  decide +kernel
+example : Condorcet.benham (scaleRanked ((10:Rat)^25 + 7)
+    [([.one 1, .one 2, .one 3], 2), ([.one 2, .one 3, .one 1], 2), ([.one 3, .one 1, .one 2], 1)]) = .ok [Slot.cand 1] := by
+  decide +kernel
 example : relativeThreshold (1/3) false (scaleVotes ((10:Rat)^25 + 7) [(1,2),(2,1),(3,3)]) = .ok [3] := by decide +kernel
 example : getNBest (scaleVotes ((10:Rat)^25 + 7) [(1,5),(2,3),(3,3)]) 2 = [Slot.cand 1, Slot.tie [2,3]] := by decide +kernel
 
